@@ -9,6 +9,7 @@ import (
 	"fmt"
 	"os"
 	"path/filepath"
+	"regexp"
 	"sort"
 	"strconv"
 	"strings"
@@ -52,6 +53,9 @@ type Finding struct {
 	Key      string `json:"key"`
 	Kind     string `json:"kind"`
 	Detail   string `json:"detail"`
+	// KeyRegex, when set, replaces the exact Key match (used where one defect has a family of
+	// minimal failing inputs); kind and detail must still match exactly.
+	KeyRegex string `json:"key_regex,omitempty"`
 	Status   string `json:"status"` // open | fixed
 	Commit   string `json:"commit,omitempty"`
 	What     string `json:"what"`
@@ -130,6 +134,7 @@ func (r *Report) Finish() int {
 	known := LoadFindings()
 	violations := 0
 	var knownHit []string
+	var proposed []Finding
 	// deterministic order
 	sort.SliceStable(r.Failures, func(i, j int) bool {
 		a, b := r.Failures[i], r.Failures[j]
@@ -150,7 +155,7 @@ func (r *Report) Finish() int {
 		seen[id] = true
 		matched := false
 		for _, k := range known {
-			if k.Status == "open" && k.Property == f.Property && k.Key == f.Key && k.Kind == f.Kind && k.Detail == f.Detail {
+			if k.Status == "open" && k.Property == f.Property && keyMatches(k, f.Key) && k.Kind == f.Kind && k.Detail == f.Detail {
 				matched = true
 				what := k.What
 				if what == "" {
@@ -166,6 +171,7 @@ func (r *Report) Finish() int {
 			continue
 		}
 		violations++
+		proposed = append(proposed, Finding{Property: f.Property, Key: f.Key, Kind: f.Kind, Detail: f.Detail, Status: "open", What: f.What})
 		dir := filepath.Join(Root(), "replays")
 		os.MkdirAll(dir, 0o755)
 		path := filepath.Join(dir, fmt.Sprintf("%s-%s.json", f.Property, hash(id)))
@@ -176,6 +182,12 @@ func (r *Report) Finish() int {
 		if f.What != "" {
 			fmt.Printf("  %s\n", f.What)
 		}
+	}
+	// maintenance aid (never read back by a check): candidate known-findings entries for review
+	if len(proposed) > 0 {
+		b, _ := json.MarshalIndent(proposed, "", " ")
+		os.MkdirAll(filepath.Join(Root(), "replays"), 0o755)
+		os.WriteFile(filepath.Join(Root(), "replays", r.Property+"-"+r.Tier+"-proposed.json"), b, 0o644)
 	}
 	r.writeEvidence(violations, knownHit)
 	for _, n := range r.Notes {
@@ -245,4 +257,16 @@ func JoinInts(xs []int) string {
 		sb.WriteString(strconv.Itoa(x))
 	}
 	return sb.String()
+}
+
+func keyMatches(k Finding, key string) bool {
+	if k.KeyRegex != "" {
+		re, err := regexp.Compile(k.KeyRegex)
+		if err != nil {
+			fmt.Fprintln(os.Stderr, "known-findings.json: bad key_regex:", err)
+			os.Exit(2)
+		}
+		return re.MatchString(key)
+	}
+	return k.Key == key
 }
